@@ -6,61 +6,9 @@ From Coq Require Import Reals List ZArith Lra Lia Bool Arith Psatz.
 From Flocq Require Import Raux.
 From Alpaqa Require Import Num NumR Vec Prox ProxProofs ProxVec SolverStatus SolverKernels SolverKernelsProofs DescentProofs
                            StopChain StopChainProofs KktProofs AugLag AugLagProofs Panoc PanocProofs PanocLen LiveVec
-                           Alm AlmProofs AlmCompose AlmComposeProofs AlmPanoc.
+                           Alm AlmProofs AlmCompose AlmComposeProofs AlmComposeKkt AlmPanoc.
 Import ListNotations.
 Local Open Scope R_scope.
-
-(* ---------------------------------------------------------------- small generic facts *)
-Lemma Forall_last {A} (Pr : A -> Prop) pre (r : A) : Forall Pr (pre ++ [r]) -> Pr r.
-Proof. intros H. apply Forall_app in H. destruct H as [_ H]. inversion H; assumption. Qed.
-
-Lemma Forall2_box_ne_nth (lb ub : list (option R)) i : Forall2 box_ne lb ub -> box_ne (nth i lb None) (nth i ub None).
-Proof.
-  intros H. revert i. induction H as [|l u lb ub Hlu H IH]; intros [|i]; cbn; try exact I; [exact Hlu|apply IH].
-Qed.
-
-Lemma Forall_nth_pos (l : list R) i : Forall (fun x => 0 < x) l -> (i < length l)%nat -> 0 < nth i l 0.
-Proof. intros H Hi. rewrite Forall_forall in H. apply H, nth_In, Hi. Qed.
-
-Lemma map4_length_eq {A B C D E} (f : A -> B -> C -> D -> E) a b c d k :
-  length a = k -> length b = k -> length c = k -> length d = k -> length (map4 f a b c d) = k.
-Proof.
-  revert b c d k; induction a as [|x a IH]; intros [|y b] [|z c] [|w d] k Ha Hb Hc Hd; simpl in *; try lia.
-  destruct k; [lia|]. f_equal. apply IH; lia.
-Qed.
-
-Lemma sigma_at_nth (Σ : list R) i : (i < length Σ)%nat -> sigma_at Σ i = nth i Σ 0.
-Proof. unfold sigma_at. destruct Σ as [|σ [|σ' Σ']]; cbn [length]; intros Hi; try reflexivity. destruct i; [reflexivity|lia]. Qed.
-
-Lemma proj_multipliers_length k (lb ub : list (option R)) M y mm :
-  length lb = mm -> length ub = mm -> length y = mm -> length (proj_multipliers k lb ub M y) = mm.
-Proof.
-  revert k ub y mm. induction lb as [|l lb IH]; intros k [|u ub] [|yi y] mm H1 H2 H3; cbn in *; try lia.
-  destruct mm; [lia|]. destruct k; cbn [length]; f_equal; apply IH; lia.
-Qed.
-
-(* length of ŷ from the definition *)
-Lemma yhat_def_length (Pb : problem (T:=R)) x y Σ mm :
-  length (pg Pb x) = mm -> length y = mm -> length Σ = mm -> length (plb Pb) = mm -> length (pub Pb) = mm ->
-  length (yhat_def Pb x y Σ) = mm.
-Proof.
-  intros Hg Hy HS Hl Hu. unfold yhat_def, yhat_of, zeta_def, zeta_of.
-  assert (HE : length (expand_sigma Σ (length y)) = mm) by (rewrite Hy; apply expand_sigma_length; right; exact HS).
-  apply map4_length_eq; try assumption. apply map3_length_eq; assumption.
-Qed.
-
-(* the y handed to every inner solve has the length of the constraint vector *)
-Lemma run_y_length (P : alm_params (T:=R)) pb f0 g0 nanv Σ0 y0 script :
-  Alm.p_max_iter P <> 0%nat -> pb_m pb <> 0%nat -> length (pb_ub pb) = pb_m pb -> length y0 = pb_m pb ->
-  Forall (fun r => length (it_y r) = pb_m pb) (fst (alm_run P pb f0 g0 nanv Σ0 y0 script)).
-Proof.
-  intros Hmi Hm Hub Hy. unfold alm_run. apply Nat.eqb_neq in Hmi, Hm. rewrite Hmi, Hm.
-  apply (loop_trace_ind P pb (fun _ s => length (s_y s) = pb_m pb) (fun r => length (it_y r) = pb_m pb) (fun _ _ => True)).
-  - intros i s r Hs. cbn [mkrec it_y]. unfold y_in_of. apply proj_multipliers_length; [reflexivity|exact Hub|exact Hs].
-  - intros i s r Hs _. cbn [next s_y]. apply pick_length. unfold y_in_of. apply proj_multipliers_length; [reflexivity|exact Hub|exact Hs].
-  - intros; exact I.
-  - exact Hy.
-Qed.
 
 (* L_init > 0 in every solve *)
 Lemma L_init_pos (pgf : list R -> R * list R * list R) (gpsi : list R -> list R) (P : params (T:=R)) x :
@@ -124,9 +72,6 @@ Section E2E.
   Proof. unfold o_grad_L. now apply te_grad_L_val. Qed.
   Lemma ogp_val y Σ x : ogp y Σ x = grad_psi_def Pb x y Σ.
   Proof. unfold o_grad_psi. now apply te_grad_psi_val. Qed.
-  Lemma grad_L_def_length x yh : length x = n -> length (grad_L_def Pb x yh) = n.
-  Proof. intros Hx. unfold grad_L_def. apply vadd_length; [apply Hgf|apply Hgg]; exact Hx. Qed.
-
   (* ---- one inner solve *)
   Lemma inner_spec w i x y Σ tol errz r x' lg w' : length x = n ->
     inner_ w i x y Σ tol errz = Some (r, x', lg, w') ->
@@ -147,11 +92,11 @@ Section E2E.
     2: { intros E. injection E as E1 E2 E3 E4. subst r x'. split; [exact Hx|]. cbn [ir_status]. discriminate. }
     intros E. injection E as E1 E2 E3 E4. subst r x'. cbn [ir_status ir_y ir_err ir_eps].
     assert (Hpg : forall z, length z = n -> length (snd (psi_grad (opgf y Σ) z)) = n).
-    { intros z Hz. rewrite opgf_grad. unfold grad_psi_def. now apply grad_L_def_length. }
+    { intros z Hz. rewrite opgf_grad. unfold grad_psi_def. now apply (grad_L_def_length Pb n Hgf Hgg). }
     assert (HgL' : forall z yh, length z = n -> length (ogL z yh) = n).
-    { intros z yh Hz. rewrite ogL_val. now apply grad_L_def_length. }
+    { intros z yh Hz. rewrite ogL_val. now apply (grad_L_def_length Pb n Hgf Hgg). }
     assert (Hgp' : forall z, length z = n -> length (ogp y Σ z) = n).
-    { intros z Hz. rewrite ogp_val. unfold grad_psi_def. now apply grad_L_def_length. }
+    { intros z Hz. rewrite ogp_val. unfold grad_psi_def. now apply (grad_L_def_length Pb n Hgf Hgg). }
     assert (Hdir' : forall j it q, (fun j it => dir (c_apply w + j)%nat it) j it = Some q -> length q = n).
     { intros j it q Hq. eapply Hdir. exact Hq. }
     split.
@@ -175,67 +120,9 @@ Section E2E.
   Lemma inner_keeps_length w i x y Σ tol e r x' lg w' : length x = n -> inner_ w i x y Σ tol e = Some (r, x', lg, w') -> length x' = n.
   Proof. intros Hx Hi. destruct (inner_spec w i x y Σ tol e r x' lg w' Hx Hi) as [A _]. exact A. Qed.
 
-  (* ---- the primal clauses from the data of a converged inner solve *)
-  Lemma primal_part xh yh xx grad γ eps tol :
-    0 < γ -> length xx = n -> length grad = n -> length xh = n ->
-    xh = fst (fst (proj_grad_step Clb Cub γ xx grad)) ->
-    eps = vnorminf (kkt_residual γ (snd (fst (proj_grad_step Clb Cub γ xx grad))) grad (grad_L_def Pb xh yh)) ->
-    eps <= tol ->
-    (forall i, (i < n)%nat -> in_box (nth i Clb None) (nth i Cub None) (nth i xh 0)) /\
-    (forall i, (i < n)%nat -> exists r,
-        (forall u, in_box (nth i Clb None) (nth i Cub None) u -> r * (u - nth i xh 0) <= 0) /\
-        Rabs (- nth i (vadd (pgrad_f Pb xh) (pgrad_g_prod Pb xh yh)) 0 - r) <= tol).
-  Proof.
-    intros Hγ Lxx Lgr Lxh Ex Eeps Htol. split.
-    - intros i Hi. destruct (proj_grad_step_nth Clb Cub γ xx grad n HClb HCub Lxx Lgr i Hi) as (E1 & _).
-      rewrite Ex, E1. apply proj1_in_box. now apply Forall2_box_ne_nth.
-    - intros i Hi.
-      assert (Lgh : length (grad_L_def Pb xh yh) = n) by now apply grad_L_def_length.
-      assert (Hres : vnorminf (kkt_residual γ (snd (fst (proj_grad_step Clb Cub γ xx grad))) grad (grad_L_def Pb xh yh)) <= tol)
-        by (rewrite <- Eeps; exact Htol).
-      destruct (approx_kkt_stationarity Clb Cub γ xx grad (grad_L_def Pb xh yh) tol n Hγ HClb HCub Lxx Lgr Lgh
-                  (fun j _ => Forall2_box_ne_nth Clb Cub j HCne) Hres i Hi) as (r & Hr1 & Hr2).
-      exists r. split; [intros u Hu; rewrite Ex; apply Hr1, Hu|exact Hr2].
-  Qed.
-
-  (* ---- the dual clauses from ŷ = Σ(ζ − Π_D ζ), e = (ŷ − y)/Σ, ‖e‖∞ <= δ *)
-  Lemma dual_part xh yin Σ δ :
-    length xh = n -> length yin = m -> length Σ = m -> Forall (fun s => 0 < s) Σ ->
-    vnorminf (vdiv (vsub (yhat_def Pb xh yin Σ) yin) Σ) <= δ ->
-    let y := yhat_def Pb xh yin Σ in
-    (forall i, (i < m)%nat -> exists z, in_box (nth i (plb Pb) None) (nth i (pub Pb) None) z /\ Rabs (nth i (pg Pb xh) 0 - z) <= δ) /\
-    (forall i, (i < m)%nat ->
-       (0 < nth i y 0 -> exists u, nth i (pub Pb) None = Some u /\ Rabs (nth i (pg Pb xh) 0 - u) <= δ) /\
-       (nth i y 0 < 0 -> exists l, nth i (plb Pb) None = Some l /\ Rabs (nth i (pg Pb xh) 0 - l) <= δ)).
-  Proof.
-    intros Lxh Ly LS Hpos Hn y.
-    assert (Lg : length (pg Pb xh) = m) by now apply Hg.
-    assert (Lyh : length y = m) by (apply yhat_def_length; assumption).
-    set (e := vdiv (vsub y yin) Σ) in *.
-    assert (Le : length e = m) by (unfold e, vdiv, vsub; apply map2_length; [apply map2_length|]; assumption).
-    assert (Hcomp : forall i, (i < m)%nat ->
-              let σ := nth i Σ 0 in let gi := nth i (pg Pb xh) 0 in let yi := nth i yin 0 in
-              let li := nth i (plb Pb) None in let ui := nth i (pub Pb) None in
-              0 < σ /\ box_ne li ui /\ nth i y 0 = yhat1 li ui gi yi σ /\
-              Rabs (errz1 (yhat1 li ui gi yi σ) yi σ) <= δ).
-    { intros i Hi. cbv zeta.
-      assert (Hσ : 0 < nth i Σ 0) by (apply Forall_nth_pos; [exact Hpos|lia]).
-      assert (Hy : nth i y 0 = yhat1 (nth i (plb Pb) None) (nth i (pub Pb) None) (nth i (pg Pb xh) 0) (nth i yin 0) (nth i Σ 0)).
-      { unfold y. rewrite (yhat_def_nth Pb xh yin Σ m i Lg Ly HDlb HDub (or_intror LS) Hi).
-        rewrite sigma_at_nth by lia. reflexivity. }
-      split; [exact Hσ|]. split; [now apply Forall2_box_ne_nth|]. split; [exact Hy|].
-      assert (He : nth i e 0 = errz1 (nth i y 0) (nth i yin 0) (nth i Σ 0)).
-      { unfold e, vdiv, vsub. rewrite (map2_nth _ _ _ m i 0 0 0); [|apply map2_length; assumption|assumption|assumption].
-        rewrite (map2_nth _ _ _ m i 0 0 0) by assumption. reflexivity. }
-      rewrite <- Hy, <- He. eapply Rle_trans; [|exact Hn]. apply vnorminf_ge_component. change (In (nth i e 0) e). apply nth_In. lia. }
-    split.
-    - intros i Hi. destruct (Hcomp i Hi) as (Hσ & Hne & _ & Hb). cbv zeta in Hb.
-      destruct (dist_g_D_le_e _ _ (nth i (pg Pb xh) 0) (nth i yin 0) _ Hσ Hne) as (z & Hz & Ez).
-      exists z. split; [exact Hz|]. rewrite Ez. exact Hb.
-    - intros i Hi. destruct (Hcomp i Hi) as (Hσ & Hne & Hy & Hb). cbv zeta in Hb, Hy. split; intros Hs; rewrite Hy in Hs.
-      + destruct (yhat_pos_near_upper _ _ _ _ _ Hσ Hne Hs) as (u & Eu & Ed). exists u. split; [exact Eu|]. rewrite Ed. exact Hb.
-      + destruct (yhat_neg_near_lower _ _ _ _ _ Hσ Hne Hs) as (l & El & Ed). exists l. split; [exact El|]. rewrite Ed. exact Hb.
-  Qed.
+  (* every inner call satisfies the contract of the generic lemma *)
+  Lemma inner_contract : inner_contract_kkt counters (result (T:=R)) inner_ Pb Clb Cub n.
+  Proof. intros w i x y Σ tol errz r x' lg w' Hx Hi. exact (inner_spec w i x y Σ tol errz r x' lg w' Hx Hi). Qed.
 
   (* ================================================================ THE theorem *)
   Theorem alm_panoc_converged_is_kkt outer_fuel nanv Σ0 y0 x0 co :
@@ -259,81 +146,10 @@ Section E2E.
         (nth i y 0 < 0 -> exists l, nth i (plb Pb) None = Some l /\ Rabs (nth i (pg Pb x) 0 - l) <= p_dual_tol AP)).
   Proof.
     intros Hx0 Hy0 Hmi HΣ Htol Hrun Hst. unfold alm_panoc in Hrun.
-    set (pb := pb_of Pb split) in *.
-    assert (Hpm : pb_m pb = m) by exact HDlb.
-    destruct (c_run_spec _ _ _ AP pb _ _ _ _ _ _ _ _ co Hrun) as (script & Htr & Hfin & Hex & Hcalled & _ & Hne).
-    specialize (Hne Hmi).
-    assert (HQ : forall w i x y Σ tol e r x' lg w', length x = n -> inner_ w i x y Σ tol e = Some (r, x', lg, w') -> length x' = n)
-      by (intros; eapply inner_keeps_length; eassumption).
-    destruct (Nat.eq_dec m 0) as [Hm0|Hm0].
-    - (* ---- no general constraints: one inner solve at the final tolerance *)
-      destruct script as [|r0 rest]; [contradiction|].
-      unfold alm_run in Htr, Hfin. apply Nat.eqb_neq in Hmi. rewrite Hmi in Htr, Hfin.
-      assert (Hpm0 : Nat.eqb (pb_m pb) 0 = true) by (apply Nat.eqb_eq; lia).
-      rewrite Hpm0 in Htr, Hfin. cbn [fst snd] in Htr, Hfin.
-      rewrite Htr in Hcalled.
-      destruct (called_last _ _ _ (fun x => length x = n) HQ [] _ x0 cnt0 (co_x co) (co_w co) Hx0 Hcalled) as (x & w & lg & Lx & Hin).
-      cbn [it_i it_y it_Sigma it_tol it_err_in it_res] in Hin.
-      destruct (inner_spec _ _ _ _ _ _ _ _ _ _ _ Lx Hin) as (Lxo & Hconv).
-      rewrite Hfin in Hst. cbn [f_status] in Hst. destruct (Hconv Hst) as (Ey & _ & xx & grad & γ & Hγ & Lxx & Lgr & Ex & Eeps & Etol).
-      cbv zeta in *.
-      assert (Ey0 : y0 = []) by (destruct y0; [reflexivity|cbn in Hy0; lia]).
-      assert (Eyh : yhat_def Pb (co_x co) y0 [] = []) by (rewrite Ey0; apply yhat_def_empty).
-      assert (Efy : f_y (co_final co) = []).
-      { rewrite Hfin. cbn [f_y]. rewrite Ey, Eyh, Ey0. reflexivity. }
-      rewrite Efy. rewrite Eyh in Eeps.
-      assert (Heff : eff_tol (p_tol AP) = p_tol AP).
-      { unfold eff_tol. change (@nltb R NumR) with Rlt_bool. change (@n0 R NumR) with 0.
-        destruct (Rlt_bool_spec 0 (p_tol AP)) as [_|Hle]; [reflexivity|]. specialize (Htol Hm0). lra. }
-      rewrite Heff in Etol.
-      destruct (primal_part (co_x co) [] xx grad γ (ir_eps r0) (p_tol AP) Hγ Lxx Lgr Lxo Ex Eeps Etol) as (P1 & P2).
-      split; [exact Lxo|]. split; [cbn; lia|]. split; [exact P1|]. split; [exact P2|].
-      split; intros i Hi; lia.
-    - (* ---- general constraints: the last record of the trace *)
-      assert (Hm : pb_m pb <> 0%nat) by (rewrite Hpm; exact Hm0).
-      specialize (HΣ Hm0). rewrite <- Hpm in HΣ.
-      rewrite Hfin in Hex, Hst.
-      destruct (run_final AP pb _ _ nanv Σ0 y0 script Hmi Hm Hex) as (pre & r & Htr' & _ & _ & _ & Hf).
-      cbv zeta in Hf. destruct Hf as (F1 & _ & _ & _ & _ & _ & F7).
-      rewrite F1 in Hst. apply rec_status_converged_iff in Hst. destruct Hst as (Hc1 & Hc2 & Hc3).
-      pose proof (run_growth AP pb (pf Pb x0) (pg Pb x0) nanv Σ0 y0 script ltac:(destruct HΣ as [A _]; exact A)) as [Hwf _].
-      pose proof (run_sigma_positive AP pb (pf Pb x0) (pg Pb x0) nanv Σ0 y0 script HΣ) as Hsp.
-      pose proof (run_y_length AP pb (pf Pb x0) (pg Pb x0) nanv Σ0 y0 script Hmi Hm (eq_trans HDub (eq_sym Hpm)) (eq_trans Hy0 (eq_sym Hpm))) as Hyl.
-      rewrite Htr' in Hwf, Hsp, Hyl. apply Forall_last in Hwf, Hsp, Hyl.
-      destruct Hwf as (W1 & W2 & W3 & W4). destruct Hsp as (S1 & _). rewrite Hpm in *.
-      rewrite Htr, Htr' in Hcalled.
-      destruct (called_last _ _ _ (fun x => length x = n) HQ pre r x0 cnt0 (co_x co) (co_w co) Hx0 Hcalled) as (x & w & lg & Lx & Hin).
-      destruct (inner_spec _ _ _ _ _ _ _ _ _ _ _ Lx Hin) as (Lxo & Hconv).
-      destruct (Hconv Hc1) as (Ey & Ee & xx & grad & γ & Hγ & Lxx & Lgr & Ex & Eeps & _). cbv zeta in *.
-      set (xh := co_x co) in *. set (yh := yhat_def Pb xh (it_y r) (it_Sigma r)) in *.
-      assert (Lyh : length yh = m) by (apply yhat_def_length; try assumption; now apply Hg).
-      assert (Efy : f_y (co_final co) = yh).
-      { rewrite Hfin, F7, Ey. unfold pick. rewrite Lyh, Nat.eqb_refl. reflexivity. }
-      (* the slack-error buffer after the last solve is (ŷ − y)/Σ *)
-      assert (Eerr : it_err r = vdiv (vsub yh (it_y r)) (it_Sigma r)).
-      { rewrite W2, Ee. destruct (it_err_in r) as [|e0 ein] eqn:Ein.
-        - exfalso. rewrite W2, Ee in W4. unfold pick in W4. cbn [length] in W4. destruct (Nat.eqb 0 m); cbn in W4; lia.
-        - unfold pick.
-          assert (Lv : length (vdiv (vsub yh (it_y r)) (it_Sigma r)) = m)
-            by (unfold vdiv, vsub; apply map2_length; [apply map2_length|]; assumption).
-          rewrite Lv, Nat.eqb_refl. reflexivity. }
-      rewrite W1, Eerr in Hc3.
-      destruct (primal_part xh yh xx grad γ (ir_eps (it_res r)) (p_tol AP) Hγ Lxx Lgr Lxo Ex Eeps Hc2) as (P1 & P2).
-      destruct (dual_part xh (it_y r) (it_Sigma r) (p_dual_tol AP) Lxo Hyl W3 S1 Hc3) as (D1 & D2).
-      rewrite Efy. split; [exact Lxo|]. split; [exact Lyh|]. split; [exact P1|]. split; [exact P2|]. split; [exact D1|exact D2].
+    exact (compose_converged_is_kkt counters (result (T:=R)) inner_ Pb Clb Cub split AP n m HClb HCub HCne Hgf Hgg Hg HDlb HDub HDne
+             inner_contract outer_fuel nanv Σ0 y0 x0 cnt0 co Hx0 Hy0 Hmi HΣ Htol Hrun Hst).
   Qed.
 End E2E.
-
-(* the hypothesis on the initial penalties, from parameter ranges (AlmProofs.initial_sigma_ok) *)
-Lemma sigma_inv_of_params (P : alm_params (T:=R)) m f0 g0 Σ0 :
-  0 < p_min_pen P <= p_max_pen P -> p_init_pen P <= p_max_pen P ->
-  (forall s, Σ0 = Some s -> sigma_accepted s = true ->
-     length s = m /\ Forall (fun x => 0 < x <= p_max_pen P) s /\ (p_single P = true -> uniform s)) ->
-  sigma_inv P m (initial_sigma P m f0 g0 Σ0).
-Proof.
-  intros H1 H2 H3. destruct (initial_sigma_ok P m f0 g0 Σ0 H1 H2 H3) as (A & B & C).
-  split; [exact A|]. split; [|exact C]. eapply Forall_impl; [|exact B]. intros a Ha. cbv beta in Ha. lra.
-Qed.
 
 (* ================================================================ non-vacuity *)
 (* a PANOC run whose first iterate already meets the tolerance (L_0 > 0 given, L_0 >= L_max so that no QUB backtracking applies, lazy
